@@ -37,4 +37,11 @@ def run(ctx):
     ctx.floor("E-UNITS", "oxidd-dump bodies analysed", nfn, 60)
     st = elin.run(ctx, F, crates=("oxidd_dump",), skip_guard_table=True)
     ctx.floor("E-LIN", "oxidd-dump bodies analysed", st["bodies"], 100)
+    ctx.explain("E-DDDMP.fields: what the exporter interpolates under `.ids` is a variable number and under `.permids` a level "
+                "number (unit analysis incl. loop counters typed by their uses; the importer reads them that way). "
+                "E-DDDMP.numbering: levels are numbered bottom-up (children get smaller node ids than parents, as the importer "
+                "demands) and the support-variable index is pre-decremented from nsuppvars (range 0..nsuppvars).")
+    nf = edddmp.check_header_units(ctx, F)
+    ctx.floor("E-DDDMP.fields", "numbers interpolated under .ids / .permids", nf, 2)
+    edddmp.check_numbering(ctx, F)
     ctx.not_decided = "round-trip equality of diagrams, totality on malformed input (value reasoning about indices and counts)"
